@@ -305,3 +305,36 @@ func (s *Solver) SolveEither(q1, q2 string) Answer {
 	best.Ms = time.Since(start).Milliseconds()
 	return best
 }
+
+// SolveQuick: newest z3 only, `sec` seconds; used for the sliced attempts (only `unsat` counts).
+func (s *Solver) SolveQuick(query string, sec int) Answer {
+	h := sha256.Sum256([]byte(query))
+	key := hex.EncodeToString(h[:12])
+	file := filepath.Join(s.OutDir, "q", key+".smt2")
+	if s.CacheOn {
+		s.mu.Lock()
+		a, ok := s.cache[key]
+		s.mu.Unlock()
+		if ok && a.Result == "unsat" {
+			a.Cached, a.File = true, file
+			return a
+		}
+	}
+	os.WriteFile(file, []byte(query), 0o644)
+	start := time.Now()
+	ctx, cancel := context.WithTimeout(context.Background(), time.Duration(sec+1)*time.Second)
+	defer cancel()
+	r, out := runOne(ctx, solverCmds[0].bin, solverCmds[0].args(sec), file)
+	a := Answer{Result: r, Solver: solverCmds[0].name + "/sliced", Output: out, File: file, Ms: time.Since(start).Milliseconds()}
+	if r == "unsat" {
+		s.mu.Lock()
+		s.Stats[a.Solver+":unsat"]++
+		s.TotalMs += a.Ms
+		c := a
+		c.Output, c.File = "", ""
+		s.cache[key] = c
+		s.dirty = true
+		s.mu.Unlock()
+	}
+	return a
+}
